@@ -10,6 +10,10 @@ import Model.Sampling
 import Proofs.Sampling
 import Proofs.SamplingReal
 import Proofs.SamplingNested
+import Model.SamplingFrames
+import Proofs.SamplingFrames
+import Model.SamplingCnl
+import Proofs.SamplingCnl
 
 open Sampling
 
@@ -316,6 +320,177 @@ theorem nested_full_sample_equiv_code (altIds : List Int) (strata mstrata : List
   exact ⟨rows, h1, nested_full_sample_equiv strata mstrata altIds chosen rows _ U nests hv hcov hfull h2
     hmv hmne hmfull ⟨m1, m2, m3⟩ hn hsub⟩
 
+/-! ### row labels of the input frames are not row positions (round 3)
+
+The frames of individuals and of alternatives carry whatever index the user's pandas manipulations
+left (a permutation of 0..N-1 after `sort_values` / `sample(frac=1)`, gaps after a filter, repeats
+after `pd.concat`, strings).  The labels are a parameter of the model; the theorems quantify over
+all of them. -/
+
+/-- **The labels of a returned sample frame are its positions.**  Whatever labels the rows of the
+table of alternatives carried into the pieces, after `ignore_index=True` the stacked frame is the
+row-major flattening with row numbers 0, 1, 2, … — the form `combined_own_attributes` and the
+generated model (`utility_reads_index_i`) read. -/
+theorem sample_frame_labels_are_positions {α ι : Type} (pre : String) (cols : List String)
+    (f : List (ι × List α)) :
+    stackDict pre cols (ignoreIndex f) = flattenSample pre cols (f.map (·.2)) 0 :=
+  stackDict_relabelFrom pre cols f 0
+
+/-- why the relabelling matters: a frame that kept the labels of the table of alternatives (the
+chosen alternative sits at label 2 of the table, the drawn rows are labelled 0, 1, 2) binds the
+name `id_2` twice and `id_3` never; relabelled, position 0 is the chosen alternative -/
+theorem kept_labels_collide :
+    lookupLast (stackDict (α := Nat) "" ["id"] [(2, [17]), (0, [4]), (1, [9]), (2, [30])]) "id_2" = some 30 ∧
+    lookupLast (stackDict (α := Nat) "" ["id"] [(2, [17]), (0, [4]), (1, [9]), (2, [30])]) "id_3" = none ∧
+    lookupLast (stackDict (α := Nat) "" ["id"]
+      (ignoreIndex [(2, [17]), (0, [4]), (1, [9]), (2, [30])])) "id_0" = some 17 := by decide
+
+/-- **The drawn rows are rows of the table, found by id, whatever the labels.**  Every row handed
+over for the picked ids is a row of the table of alternatives (its own attributes intact) whose id
+was picked; when the picked ids occur once in the table the rows come in the order picked; and
+relabelling the table (any function of the labels) changes nothing but the labels. -/
+theorem sampled_rows_own_attributes {α ι κ : Type} (alts : List (ι × Int × List α)) (ids : List Int) :
+    (∀ r ∈ rowsOfIds alts ids, r ∈ alts ∧ r.2.1 ∈ ids) ∧
+    ((∀ a ∈ ids, (alts.map (·.2.1)).count a = 1) → (rowsOfIds alts ids).map (·.2.1) = ids) ∧
+    (∀ g : ι → κ, (rowsOfIds (alts.map fun r => (g r.1, r.2)) ids).map (·.2)
+        = (rowsOfIds alts ids).map (·.2)) := by
+  refine ⟨fun r hr => rowsOfIds_mem alts ids r hr, rowsOfIds_ids alts ids, ?_⟩
+  intro g
+  rw [rowsOfIds_relabel, List.map_map]
+  rfl
+
+/-- **MERGED TABLE, BY POSITION.**  For every index of the individuals and every outcome of the
+random draws: row number `p` of the table built by `sample_and_merge` carries the label and the
+cells of individual number `p` followed by the flattened samples drawn by call number `p` — the
+call that received that individual's choice. -/
+theorem merged_table_by_position {α ι κ : Type} (inds : List (ι × List (String × α)))
+    (pieces : List (Drawn κ α)) :
+    applyRows inds (pieces.map Drawn.concat)
+      = List.zipWith (fun r d => (r.1, flattenRow r.2 d.cols (d.main.map (·.2)) d.mevCols (d.mev.map (·.2))))
+          inds pieces :=
+  applyRows_concat inds pieces
+
+/-- one row of it -/
+theorem merged_row_own_sample {α ι : Type} (inds : List (ι × List (String × α)))
+    (ds : List (Drawn Nat α)) (p : Nat) (r : ι × List (String × α)) (d : Drawn Nat α)
+    (hr : inds[p]? = some r) (hd : ds[p]? = some d) :
+    (applyRows inds ds)[p]? = some (r.1, processRowL r.2 d) :=
+  applyRows_get inds ds p r d hr hd
+
+/-- **The index of the individuals is irrelevant**: relabelling the individuals (permuting,
+shifting, repeating labels — any function of the labels) leaves the cells of the merged table,
+row by row, unchanged. -/
+theorem merge_ignores_labels {α ι κ : Type} (g : ι → κ) (inds : List (ι × List (String × α)))
+    (ds : List (Drawn Nat α)) :
+    (applyRows (inds.map fun r => (g r.1, r.2)) ds).map (·.2) = (applyRows inds ds).map (·.2) := by
+  rw [applyRows_relabel, List.map_map]
+  rfl
+
+/-- **In merged row `p` the column `<id>_0` is the id cell of the first row of the sample drawn
+for individual `p`** (the chosen alternative, by `protocol_facts`), for every index of the
+individuals.  The second-sample columns carry the prefix `_MEV_`; they must not shadow the name
+(true unless the id column itself is called `_MEV_…`). -/
+theorem merged_row_lists_choice_first {α ι κ : Type} [NumOps α] (inds : List (ι × List (String × α)))
+    (pieces : List (Drawn κ α)) (p : Nat) (r : ι × List (String × α)) (d : Drawn κ α)
+    (m0 : κ × List α) (rest : List (κ × List α)) (idCol : String)
+    (hr : inds[p]? = some r) (hd : pieces[p]? = some d) (hmain : d.main = m0 :: rest)
+    (hc : idCol ∈ d.cols) (hlen : d.cols.length ≤ m0.2.length)
+    (hmev : ∀ kv ∈ flattenSample "_MEV_" d.mevCols (d.mev.map (·.2)) 0, kv.1 ≠ colKey "" idCol 0) :
+    ∃ row, (applyRows inds (pieces.map Drawn.concat))[p]? = some (r.1, row) ∧
+      lookupLast row (colKey "" idCol 0) = cell d.cols m0.2 idCol := by
+  refine ⟨processRowL r.2 d.concat, applyRows_get _ _ p r d.concat hr (by simp [hd]), ?_⟩
+  rw [processRowL_concat, flattenRow, lookupLast_append, lookupLast_none _ _ hmev, lookupLast_append, hmain]
+  have := lookupLast_flattenSample "" d.cols (m0.2 :: rest.map (·.2)) 0 0 idCol (keysInj _ _) hc (by simp)
+  simp only [Nat.add_zero, List.getElem_cons_zero] at this
+  simp only [List.map_cons, this]
+  obtain ⟨w, hw⟩ := cell_isSome d.cols m0.2 idCol hc hlen
+  rw [hw]
+
+/-! ### `generate_segment_size` (helper producing the sample sizes of a partition) -/
+
+/-- an accepted call returns one size per segment, summing to the requested total (so the choice
+set built from them has exactly the requested number of alternatives), all equal to the quotient or
+the quotient plus one, the larger ones first -/
+theorem segment_sizes_cover (n m : Int) (l : List Int) (h : generateSegmentSize n m = .ok l) :
+    0 ≤ n ∧ 0 < m ∧ (l.length : Int) = m ∧ l.sum = n ∧
+      (∀ x ∈ l, x = n / m ∨ x = n / m + 1) ∧ l.Pairwise (fun a b => b ≤ a) :=
+  generateSegmentSize_ok n m l h
+
+/-- it refuses exactly a negative total and a non-positive number of segments -/
+theorem segment_sizes_refusals (n m : Int) :
+    (generateSegmentSize n m = .error .negativeSample ↔ n < 0) ∧
+    (generateSegmentSize n m = .error .nonPositiveSegments ↔ 0 ≤ n ∧ m ≤ 0) := by
+  unfold generateSegmentSize
+  by_cases h1 : n < 0
+  · simp [h1]
+  · by_cases h2 : m ≤ 0
+    · simp [h1, h2]; omega
+    · simp [h1, h2]
+
+/-! ### the cross-nested logit generated on the sample (`get_cross_nested_logit`, round 3) -/
+
+/-- **Every nest reads its own MEV sum** from the dictionary keyed by the NAME of the nest, when
+the names are pairwise distinct (any number type, any second sample). -/
+theorem cnl_sum_lookup {α} [NumOps α] (nests : List (CnlCol α)) (mev : List (α × α))
+    (hd : (nests.map (·.name)).Nodup) :
+    ∀ n ∈ nests, lookupLast (cnlSumsDict nests mev) n.name = some (cnlSumOf n mev) :=
+  lookupLast_cnlSums nests mev hd
+
+/-- **Known finding F-C19-3 (code before the proposed repair).**  Two nests carrying the same
+name are accepted by the context; the second assignment of the key wins and the first nest reads
+the MEV sum of the second one.  The repaired context refuses such nests (hypothesis `names` of
+`ValidCnl`). -/
+theorem cnl_same_name_reads_other_sum {α} [NumOps α] (m n : CnlCol α) (mev : List (α × α))
+    (h : m.name = n.name) :
+    lookupLast (cnlSumsDict [m, n] mev) m.name = some (cnlSumOf n mev) :=
+  lookupLast_cnlSums_same_name m n mev h
+
+/-- **CROSS-NESTED FULL-SAMPLE EQUIVALENCE.**  When every stratum of the main partition and of the
+second (MEV) partition is sampled completely, for all results that follow the two protocols (hence
+for every outcome of the random draws), all valid cross-nested nests (distinct names, non-zero
+alphas and nest parameters) whose alternatives lie in the second partition and all utilities: the log
+likelihood of the cross-nested logit generated on the sample equals the log likelihood of
+`models.logcnl` on the full choice set. -/
+theorem cnl_full_sample_equiv (strata mstrata : List Stratum) (alts : List Int) (chosen : Int)
+    (rows mev : List (Int × ℝ)) (U : Int → ℝ) (nests : List (CnlNest ℝ))
+    (hv : ValidStrata strata) (hcov : Covers strata alts)
+    (hfull : ∀ s ∈ strata, s.k = (s.subset.length : Int))
+    (hp : Protocol strata chosen rows)
+    (hmv : ValidStrata mstrata) (hmne : ∀ s ∈ mstrata, s.subset ≠ [])
+    (hmfull : ∀ s ∈ mstrata, s.k = (s.subset.length : Int))
+    (hmp : MevProtocol mstrata mev)
+    (hn : ValidCnl nests)
+    (hsub : ∀ n ∈ nests, ∀ a ∈ n.alpha.map (·.1), ∃ s ∈ mstrata, a ∈ s.subset) :
+    cnlSampledLLAbs U nests rows mev = some (fullCnlLL U nests alts chosen) := by
+  obtain ⟨h1, h2, h3⟩ := mev_complete mstrata mev hmv hmne hmfull hmp
+  refine cnl_full_sample_ll strata alts chosen rows mev U nests hv hcov hfull hp hn h1 h2 ?_
+  intro n hn' a ha
+  obtain ⟨s, hs, h⟩ := hsub n hn' a ha
+  exact h3 s hs a h
+
+/-- end to end: with complete sampling of both samples, whatever the random draws returned, the
+code's own two samples give the cross-nested logit of the full choice set -/
+theorem cnl_full_sample_equiv_code (altIds : List Int) (strata mstrata : List Stratum)
+    (chosen : Int) (picks mpicks : List (List Int)) (U : Int → ℝ) (nests : List (CnlNest ℝ))
+    (hv : ValidStrata strata) (hcov : Covers strata altIds)
+    (hfull : ∀ s ∈ strata, s.k = (s.subset.length : Int))
+    (hin : chosen ∈ altIds) (hp : picksOK chosen strata picks = true)
+    (hmv : ValidStrata mstrata) (hmne : ∀ s ∈ mstrata, s.subset ≠ [])
+    (hmfull : ∀ s ∈ mstrata, s.k = (s.subset.length : Int))
+    (hmp : mevPicksOK mstrata mpicks = true)
+    (hn : ValidCnl nests)
+    (hsub : ∀ n ∈ nests, ∀ a ∈ n.alpha.map (·.1), ∃ s ∈ mstrata, a ∈ s.subset) :
+    ∃ rows : List (Int × ℝ),
+      sampleAlternatives altIds strata chosen picks = .ok (rows.map fun r => (r.1, some r.2)) ∧
+      cnlSampledLLAbs U nests rows (sampleMev mstrata mpicks)
+        = some (fullCnlLL U nests altIds chosen) := by
+  have hocc : altIds.count chosen = 1 := List.count_eq_one_of_mem hcov.nodup hin
+  obtain ⟨rows, h1, h2⟩ := sampleAlternatives_protocol (α := ℝ) altIds strata chosen picks hv hocc
+    ((hcov.mem chosen).mp hin) hp
+  obtain ⟨m1, m2, m3⟩ := sampleMev_facts (α := ℝ) mstrata mpicks hmv.disjoint hmp
+  exact ⟨rows, h1, cnl_full_sample_equiv strata mstrata altIds chosen rows _ U nests hv hcov hfull h2
+    hmv hmne hmfull ⟨m1, m2, m3⟩ hn hsub⟩
+
 /-! ### non-vacuity -/
 
 def exStrata : List Stratum := [⟨[4, 17, 2], 2⟩, ⟨[30, 9, 11], 3⟩]
@@ -356,5 +531,41 @@ example : dictGet (α := Nat) [([17, 4], 5), ([11, 30, 9], 7)] [11, 30, 9] = som
     dictGet (α := Nat) [([17, 4], 5), ([11, 30, 9], 7)] [17, 4] = some 5 ∧
     dictGet (α := Nat) [([17, 4], 5), ([17, 4], 6)] [17, 4] = some 6 ∧
     dictGet (α := Nat) [([17, 4], 5)] [4, 17] = none := by decide
+
+/-- labelled frames: individuals indexed by a permutation, samples whose pieces kept labels -/
+def exInds : List (Int × List (String × Nat)) := [(2, [("choice", 17)]), (0, [("choice", 30)]), (1, [("choice", 2)])]
+def exPieces : List (Drawn String Nat) :=
+  [⟨["id"], [("c", [17]), ("a", [4])], [], []⟩, ⟨["id"], [("f", [30]), ("a", [9])], [], []⟩,
+   ⟨["id"], [("e", [2]), ("b", [11])], ["id"], [("x", [9])]⟩]
+example : (applyRows exInds (exPieces.map Drawn.concat)).map (·.1) = [2, 0, 1] ∧
+    (applyRows exInds (exPieces.map Drawn.concat))[2]? =
+      some (1, [("choice", 2), ("id_0", 2), ("id_1", 11), ("_MEV_id_0", 9)]) := by decide
+example : rowsOfIds [("x", 30, [1]), ("y", 4, [2]), ("x", 17, [3])] [17, 30] = [("x", 17, [3]), ("x", 30, [1])] := by decide
+example : generateSegmentSize 10 3 = .ok [4, 3, 3] ∧ generateSegmentSize 2 5 = .ok [1, 1, 0, 0, 0] ∧
+    generateSegmentSize 0 2 = .ok [0, 0] ∧ generateSegmentSize (-1) 2 = .error .negativeSample ∧
+    generateSegmentSize 3 0 = .error .nonPositiveSegments := by decide
+
+/-- cross-nested nests over the example: alternative 4 in both nests, 2 alone -/
+noncomputable def exCnl : List (CnlNest ℝ) :=
+  [⟨1.5, "n0", [(17, 1), (4, 0.5)]⟩, ⟨2, "n1", [(4, 0.5), (30, 1), (9, 1), (11, 1)]⟩]
+example : ValidCnl exCnl := by
+  refine ⟨by simp [exCnl], ?_, ?_, ?_⟩
+  · intro n hn
+    simp only [exCnl, List.mem_cons, List.not_mem_nil, or_false] at hn
+    rcases hn with rfl | rfl <;> decide
+  · intro n hn p hp
+    simp only [exCnl, List.mem_cons, List.not_mem_nil, or_false] at hn
+    rcases hn with rfl | rfl <;>
+      (simp only [List.mem_cons, List.not_mem_nil, or_false] at hp
+       rcases hp with rfl | rfl | rfl | rfl <;> norm_num)
+  · intro n hn
+    simp only [exCnl, List.mem_cons, List.not_mem_nil, or_false] at hn
+    rcases hn with rfl | rfl <;> norm_num
+example : ∀ n ∈ exCnl, ∀ a ∈ n.alpha.map (·.1), ∃ s ∈ exMevFull, a ∈ s.subset := by
+  intro n hn
+  simp only [exCnl, List.mem_cons, List.not_mem_nil, or_false] at hn
+  rcases hn with rfl | rfl <;> decide
+/-- distinct names (hypothesis of `cnl_sum_lookup`) on a concrete pair of nests -/
+example : (([⟨2, "n0", [1, 0]⟩, ⟨3, "n1", [0, 1]⟩] : List (CnlCol ℝ)).map (·.name)).Nodup := by simp
 
 end C19
